@@ -34,7 +34,7 @@ def confirm(d):
     assert rc == 0, out
     try:
         run = os.path.join(d, "demo", "run.sh")
-        rc0, out0 = sh(["sh", run, wt], timeout=1200)
+        rc0, out0 = sh(["bash", run, wt], timeout=1200)
         res["demo_without_patch"] = dict(rc=rc0, tail=out0[-1500:])
         sh("git checkout -- . && git clean -fdq", cwd=wt)
         BUILD = "go build ./... 2>&1 | sort; go test -vet=off -count=1 -run '^$' ./... 2>&1 | grep -v '^ok\\|no test files' | sed 's/[0-9.]*s$//' | sort"
@@ -61,7 +61,7 @@ def confirm(d):
         missing = sorted(stable - passed)
         res["tests_pass"] = not missing and not (failed & stable)
         res["tests_output"] = "stable_pass=%d passed=%d failed=%d missing=%s" % (len(stable), len(passed), len(failed), missing[:10])
-        rc1, out1 = sh(["sh", run, wt], timeout=1200)
+        rc1, out1 = sh(["bash", run, wt], timeout=1200)
         res["demo_with_patch"] = dict(rc=rc1, tail=out1[-1500:])
         res["confirmed"] = bool(res["applies"] and res["builds"] and res["tests_pass"] and rc0 == 0 and rc1 != 0)
         return res
